@@ -106,6 +106,9 @@ fn check(shape: &Shape, obs: &mut Obs) {
         |p| {
             let bb = p.bounding_box();
             let got: Vec<(i32, i32)> = p.points().take(1_000_000).map(|q| (q.x, q.y)).collect();
+            if got.len() <= 150 {
+                iter_protocol("points()", 150, || p.points(), obs);
+            }
             let m = 2;
             let mut exp: Vec<(i32, i32)> = vec![];
             let mut outside_true: Vec<(i32, i32)> = vec![];
